@@ -248,9 +248,10 @@ async fn app_traffic(conn: &wtransport::Connection, rng: &mut Rng) -> AppSent {
 }
 
 /// Server role: raw client (session id 4·burn) against a wtransport server.
-async fn server_role_case(seed: u64, burn: usize, decision: Decision, rep: &mut Report) {
+async fn server_role_case(seed: u64, burn: usize, decision: Decision, window: Option<u32>, rep: &mut Report) {
     let role = "server";
-    rep.eval(format!("server|sid={}B|{}", rv::size(4 * burn as u64), match &decision { Decision::Accept => "accept", Decision::AcceptWithHeaders(_) => "accept_with_headers", Decision::Forbidden => "forbidden", Decision::NotFound => "not_found", Decision::TooManyRequests => "too_many_requests" }));
+    let hb = crate::util::Heartbeat::start();
+    rep.eval(format!("server|sid={}B|window={}|{}", rv::size(4 * burn as u64), window.map_or("default".to_string(), |w| w.to_string()), match &decision { Decision::Accept => "accept", Decision::AcceptWithHeaders(_) => "accept_with_headers", Decision::Forbidden => "forbidden", Decision::NotFound => "not_found", Decision::TooManyRequests => "too_many_requests" }));
     let mut rng = Rng::new(seed);
     let server = ends::wt_server(ends::default_transport());
     let addr = std::net::SocketAddr::new("127.0.0.1".parse().unwrap(), server.local_addr().unwrap().port());
@@ -284,7 +285,7 @@ async fn server_role_case(seed: u64, burn: usize, decision: Decision, rep: &mut 
         }
     };
     let rawside = async {
-        let (ep, peer) = raw::raw_connect(addr, raw::raw_transport()).await?;
+        let (ep, peer) = raw::raw_connect(addr, window.map_or_else(raw::raw_transport, raw::small_stream_window)).await?;
         peer.send_control(&raw::default_settings()).await?;
         // burn client bidi streams so the session stream gets a larger id
         for _ in 0..burn {
@@ -308,6 +309,11 @@ async fn server_role_case(seed: u64, burn: usize, decision: Decision, rep: &mut 
     };
     let (_ep, peer, s, r, sid, frames) = match b {
         Waited::Done(Ok(x)) => x,
+        Waited::Done(Err(e)) if e.contains("incomplete frame") && hb.beats() > 200 => {
+            // the raw peer kept reading (and so extending the stream's credit) for 8 s
+            viol(rep, role, "response-truncated", format!("the response never arrived completely although the peer kept reading (stream window {window:?}): {e}"), J::Null);
+            return;
+        }
         Waited::Done(Err(e)) => {
             rep.inconclusive(format!("server-role raw side: {e}"));
             return;
@@ -365,15 +371,16 @@ async fn server_role_case(seed: u64, burn: usize, decision: Decision, rep: &mut 
 }
 
 /// Client role: wtransport client connects to a raw server with a generated URL + headers.
-async fn client_role_case(seed: u64, idx: u64, rep: &mut Report) {
+async fn client_role_case(seed: u64, idx: u64, window: Option<u32>, rep: &mut Report) {
     let role = "client";
+    let hb = crate::util::Heartbeat::start();
     let mut rng = Rng::new(seed);
-    let raw_ep = ends::raw_server_endpoint(&[b"h3", b"hq-29"], raw::raw_transport());
+    let raw_ep = ends::raw_server_endpoint(&[b"h3", b"hq-29"], window.map_or_else(raw::raw_transport, raw::small_stream_window));
     let addr = raw_ep.local_addr().unwrap();
     let dnslog: Arc<Mutex<Vec<String>>> = Default::default();
     let client = client_for(addr, dnslog);
     let req: Req = genreq::gen(&mut rng, "127.0.0.1", addr.port(), idx);
-    rep.eval(format!("client|{}", req.class));
+    rep.eval(format!("client|window={}|{}", window.map_or("default".to_string(), |w| w.to_string()), req.class));
     let mut opts = wtransport::endpoint::ConnectOptions::builder(&req.url);
     for (k, v) in &req.headers {
         opts = opts.add_header(k, v);
@@ -389,6 +396,10 @@ async fn client_role_case(seed: u64, idx: u64, rep: &mut Report) {
     let (a, b) = tokio::join!(within(Duration::from_secs(15), sut), within(Duration::from_secs(15), rawside));
     let (peer, sid, frames) = match b {
         Waited::Done(Ok(x)) => x,
+        Waited::Done(Err(e)) if e.contains("incomplete frame") && hb.beats() > 200 => {
+            viol(rep, role, "request-truncated", format!("the request never arrived completely although the peer kept reading for 10 s (stream window {window:?}): {e}"), J::s(req.url.chars().take(200).collect::<String>()));
+            return;
+        }
         Waited::Done(Err(e)) => {
             rep.inconclusive(format!("client-role raw side: {e}"));
             return;
@@ -453,7 +464,11 @@ pub fn run(args: &Args) -> Report {
                         continue;
                     }
                     let mut r = Report::new();
-                    server_role_case(args.seed * 31 + k, burn, d, &mut r).await;
+                    let window = match k % 3 {
+                        0 => Some([8u32, 16, 40][(k / 3 % 3) as usize]),
+                        _ => None,
+                    };
+                    server_role_case(args.seed * 31 + k, burn, d, window, &mut r).await;
                     rep.merge(r);
                 }
             }
@@ -464,7 +479,11 @@ pub fn run(args: &Args) -> Report {
                     let seed = args.seed.wrapping_mul(104729) + i;
                     set.spawn(async move {
                         let mut r = Report::new();
-                        client_role_case(seed, i, &mut r).await;
+                        let window = match i % 4 {
+                            3 => Some([8u32, 16, 32, 64][(i / 4 % 4) as usize]),
+                            _ => None,
+                        };
+                        client_role_case(seed, i, window, &mut r).await;
                         r
                     });
                 }
